@@ -14,6 +14,7 @@ import time
 from .. import config, lib, runner
 
 ENGINES = {
+    'E2': 'vf.engines.e2',
     'E3': 'vf.engines.e3',
 }
 
